@@ -1088,7 +1088,11 @@ def uninit_probe(ctx, cases, cexe):
                                    "between two runs of the same script from offset %d (%s... vs %s...)" %
                                    (la.split(" ")[1], off, ha[2 * off:2 * off + 32], hb[2 * off:2 * off + 32]),
                                 {"kind": "uninit-output", "ext": ext, "view": cfg_of(cases[i]).get("view", 0),
-                                 "tight_sectype": any(l.startswith("pe t=16 ") for l in outs[0][n][1])}))
+                                 "tight_sectype": any(l.startswith("pe t=16 ") for l in outs[0][n][1]),
+                                 # facts of the script itself: depth of the server's frame buffer; does the client ask
+                                 # for grey-scale JPEG (subsampling pseudo-encoding 0xFFFFFD03 + a quality level)
+                                 "srv_bpp": cfg_of(cases[i]).get("bpp", 32),
+                                 "gray_jpeg": any(l.startswith("ev ") and "fffffd03" in l for l in cases[i])}))
                     break
     return res, len(sel)
 
